@@ -139,8 +139,14 @@ def judge(fs, hist, code, pb):
             return viol
         sub = [hist[i] for i in ref]
     for p in PENALTIES:
-        with np.errstate(all="ignore"):
-            x, f, v = pb.best_eval(p)
+        try:
+            with np.errstate(all="ignore"):
+                x, f, v = pb.best_eval(p)
+        except Exception as e:  # noqa
+            viol.append({"key": f"best-eval-raises:{type(e).__name__}", "case": dict(case, penalty=p),
+                         "what": f"after history {hist} (filter_size={fs}) best_eval({p}) raised "
+                                 f"{type(e).__name__}: {e}"})
+            continue
         idx = int(x[0])
         if idx not in code or not (e1.feq(f, hist[idx][0]) and e1.feq(v, hist[idx][1])):
             viol.append({"key": "best-eval-inconsistent", "case": dict(case, penalty=p),
